@@ -24,7 +24,7 @@ RULE = (
     "path-ordered?, iteration>0, own-context shadow)."
 )
 ASSUMPTIONS = ["SQLite backend", "only path-ordered scalar keys are asserted by value; for unordered producers membership in the candidate set"]
-MIN_OBS = {"keys_checked": {"quick": 3000, "thorough": 50000}, "later_iteration_executions": {"quick": 50, "thorough": 500}, "reducer_orders": {"quick": 200, "thorough": 3000}, "interleaved_runs": {"quick": 60, "thorough": 800}, "reducer_iterations_checked": {"quick": 20, "thorough": 150}}
+MIN_OBS = {"keys_checked": {"quick": 3000, "thorough": 50000}, "later_iteration_executions": {"quick": 50, "thorough": 500}, "reducer_orders": {"quick": 200, "thorough": 3000}, "interleaved_runs": {"quick": 60, "thorough": 800}, "reducer_iterations_checked": {"quick": 20, "thorough": 150}, "plan_x_signal_schedules_with_switch": {"quick": 100, "thorough": 1500}}
 TIMEOUT = {"quick": 600, "thorough": 3000}
 
 SCALARS = ["k1", "k2", "k3"]
@@ -86,6 +86,7 @@ def gen_cases(tier: str, seed: int) -> list[dict]:
     nred = 12 if tier == "quick" else 80
     cases += [{"kind": "reducers", "i": i, "seed": seed} for i in range(nred)]
     cases += [{"kind": "race", "spec_i": i, "seed": seed} for i in range(80 if tier == "quick" else 1000)]
+    cases += [{"kind": "pair", "variant": v, "seed": seed, "sample": 80 if tier == "quick" else 1200} for v in range(3)]
     return cases
 
 
@@ -354,9 +355,100 @@ def _race(case: dict) -> dict:
     return {"violations": uniq, "obs": dict(obs), "keys": sorted("race:" + x for x in k)}
 
 
+def _pair(case: dict) -> dict:
+    """StartStage of a stage whose planning merges ancestor outputs (scalars, lists, an own list, a reducer
+    key) x a persistent SignalStage for the same stage being buffered by another worker: the signal's write
+    lands between the claim and the plan commit in some schedules, so the plan has to be persisted on a row
+    somebody else changed - what the tasks then see must still be the merged view."""
+    import os
+
+    from .. import interleave as il
+    from ..world import World
+
+    variant = case["variant"]
+    if variant == 2:
+        stages = [specs.st("r"), specs.st("u0", ["r"], [{"kind": "ok", "raw": {"score": 4}}]), specs.st("u1", ["r"], [{"kind": "ok", "raw": {"score": 7}}]), specs.st("b", ["u0", "u1"], [dict(specs.OK, out=["b_o"])], reducers={"score": "sum"}, ctx={"score": 0})]
+    else:
+        stages = [
+            specs.st("a", [], [{"kind": "ok", "out": ["a_o", "k1"], "lout": ["l1"]}]),
+            specs.st("m", ["a"], [{"kind": "ok", "out": ["m_o", "k2"], "lout": ["l1", "l2"]}]),
+            specs.st("b", ["m"], [dict(specs.OK, out=["b_o"]), dict(specs.OK, out=["b_o2"])], ctx={"l1": ["own.b"], "k2": "own.b"} if variant == 0 else {"l2": ["own.b2"]}),
+        ]
+    spec = {"name": f"pairvis{variant}", "confluent": True, "stages": stages}
+    w = World()
+    cut = None
+    try:
+        w.submit(spec)
+        for _ in range(200):
+            rows = w.rows()
+            if not rows:
+                break
+            bid = w.snapshot_state()["stages"]["b"]["id"]
+            tgt = [r for r in rows if r["type"] == "StartStage" and (__import__("json").loads(r["payload"]).get("stage_id") == bid)]
+            others = [r for r in w.eligible(rows) if r not in tgt]
+            if tgt and not others:
+                w.signal("b", "note", {"id": "sX"}, True)
+                rows = w.rows()
+                sig = [r for r in rows if r["type"] == "SignalStage"]
+                path = os.path.join(il.env.scratch_dir(), f"cut-{os.getpid()}-{random.randrange(1 << 40)}.db")
+                w.store._get_connection().commit()
+                w.copy_db(path)
+                cut = (path, [tgt[0]["id"], sig[0]["id"]], len(w.ledger), [dict(r) for r in w.ledger])
+                break
+            w.deliver((others or w.eligible(rows))[0]["id"])
+    finally:
+        w.close()
+    obs: Counter = Counter()
+    keys: set = set()
+    out: list[dict] = []
+    if cut is None:
+        return {"violations": [], "obs": {"cut_point_not_reached": 1}, "keys": []}
+    db, rows, _, pre = cut
+    try:
+        na, nb = il.solo_length(db, rows[0]), il.solo_length(db, rows[1])
+        rng = random.Random(case["seed"] * 83 + variant)
+        for sc in il.bound_schedules(na, nb, 2, sample=case["sample"], rng=rng):
+            run, info = il.run_pair(db, rows, il.Segments(sc))
+            obs["evaluations"] += 1
+            if run is None:
+                obs["scheduler_watchdog"] += 1
+                continue
+            if info["switches"]:
+                obs["plan_x_signal_schedules_with_switch"] += 1
+                keys.add(f"pair:{variant}:{info['trace_hash']}")
+            # the pre-cut executions (ancestors' outputs) belong to the history the oracle needs
+            run.ledger = [dict(r) for r in pre] + [dict(r, ord=r["ord"] + len(pre)) for r in run.ledger]
+            recs = [r for r in run.ledger if r["ref"] == "b"]
+            if not recs:
+                out.append(viol("C16/stage-did-not-run", f"b never executed ({run.state['wf']}); schedule {sc}"))
+                continue
+            if variant == 2:
+                obs["keys_checked"] += 1
+                if recs[0]["ctx"].get("score") != 11:
+                    out.append(viol("C16/reducer-result-wrong", f"sum over [4, 7]: join saw {recs[0]['ctx'].get('score')} (plan persisted after a concurrent signal write); schedule {sc}"))
+            else:
+                v, o, _ = visibility_oracle(spec, run)
+                obs.update(o)
+                for x in v:
+                    x["schedule"] = sc
+                out += v
+    finally:
+        os.unlink(db)
+    seen = set()
+    uniq = []
+    for x in out:
+        if x["sig"] not in seen:
+            seen.add(x["sig"])
+            x["spec"] = spec["name"]
+            uniq.append(x)
+    return {"violations": uniq, "obs": dict(obs), "keys": sorted(keys)}
+
+
 def run_case(case: dict) -> dict:
     if case["kind"] == "reducers":
         return reducer_case(case)
+    if case["kind"] == "pair":
+        return _pair(case)
     if case["kind"] == "race":
         return _race(case)
     spec = _spec_for(case["spec_i"], case["seed"])
